@@ -1073,12 +1073,33 @@ def build_ds_sites(_tree):
                         kind = _classify_ds(a.value, fn, kw)
                         rows.append(f'("{rel}: {fn.name}: {kw}", "{kind}")')
                         sig.append((rel, fn.name, kw, kind, ast.unparse(a.value)))
+    fl_rows = []
+    for dp, _, fs in sorted(os.walk(root)):
+        for f in sorted(fs):
+            if not f.endswith('.py'):
+                continue
+            p = os.path.join(dp, f)
+            rel = os.path.relpath(p, root)
+            for a in ast.walk(ast.parse(open(p).read())):
+                if isinstance(a, ast.Assign) and len(a.targets) == 1 and isinstance(a.targets[0], ast.Attribute):
+                    kw = a.targets[0].attr
+                    tg = tag_for_keyword(kw)
+                    if tg is None or dictionary_VR(tg) != 'FL':
+                        continue
+                    rhs = ast.unparse(a.value)
+                    # rounded to what the 32-bit element can hold: `x.astype(np.float32)...` or `float(np.float32(v))` per element
+                    kind = 'rounded' if ('astype(np.float32)' in rhs or 'np.float32(' in rhs) else 'raw'
+                    fl_rows.append(f'("{rel}: {kw}", "{kind}")')
+                    sig.append((rel, kw, kind, rhs))
     if not rows:
         raise Unsupported('no assignment to a DS attribute found in the package')
     text = ('/-- every assignment to an attribute of value representation DS in the package: (site, how the value is obtained:\n'
             '`formatted` = through `format_number_as_ds` / `DS(auto_format=True)`, element by element for lists; `copied` = the value of the\n'
             'same attribute of another data set; `constant` = a literal of at most 16 characters; `raw` = anything else) -/\n'
-            'def dsSites : List (String × String) := [\n  ' + ',\n  '.join(rows) + '\n]')
+            'def dsSites : List (String × String) := [\n  ' + ',\n  '.join(rows) + '\n]\n\n'
+            '/-- every assignment to an attribute of value representation FL (32-bit float): `rounded` = the value passes through\n'
+            '`np.float32` before it is stored (so the element holds what can be encoded), `raw` = anything else -/\n'
+            'def flSites : List (String × String) := [\n  ' + ',\n  '.join(fl_rows) + '\n]')
     return text, hashlib.sha256(repr(sig).encode()).hexdigest()
 
 
